@@ -97,14 +97,14 @@ func must(t vlib.TB, err error, what string) {
 }
 
 type caseCtx struct {
-	si         schemeInfo
-	kseed      []byte
-	eseed      []byte
-	pk         kem.PublicKey
-	sk         kem.PrivateKey
-	pkb, skb   []byte
-	ct, ss     []byte
-	name, sub  string
+	si        schemeInfo
+	kseed     []byte
+	eseed     []byte
+	pk        kem.PublicKey
+	sk        kem.PrivateKey
+	pkb, skb  []byte
+	ct, ss    []byte
+	name, sub string
 }
 
 func honest(t vlib.TB, si schemeInfo, kseed, eseed []byte) (*caseCtx, bool) {
